@@ -782,3 +782,49 @@ def an_pixels(sub, payload, unit, tag, res):
                   function=fn, kind="post", sliced=True)
     sub.decided(f"{pid}/dtype-of-the-sample-type", am["dtype"].get("py") == repr(dt), function=fn,
                 detail={"dtype": am["dtype"], "type_code": tcode})
+
+
+# ---------------------------------------------------------------------------------------------------
+# C18: truncation — a reader that returns has seen every declared byte
+# ---------------------------------------------------------------------------------------------------
+def an_truncation(sub, payload, unit, tag, res):
+    """truncation mode (availability of every read is a branch): on a returning path the file holds at least the declared
+    bytes of all records; every other path raises"""
+    prop = payload["prop"]
+    fn = _fn(unit)
+    it = res.extra["it"]
+    pid = f"{prop}/{unit}/{tag}"
+    if res.outcome != "return":
+        sub.decided(f"{pid}/raises-an-exception", isinstance(res.exc, Exception), function=fn, backend="engine",
+                    detail={"exception": exc_text(res.exc, 120)})
+        return
+    size = z3.Int("size_of_file_100")
+    base = path_hyps(res.path)
+    spans = [s for s in getattr(it, "spans", []) if len(s[0]) == 1]
+    total = z3.IntVal(0)
+    import construct as _C
+
+    known = 0
+    for pth, start, end, con in spans:
+        name = pth[0]
+        if isinstance(con, _C.Array):
+            cnt = con.count
+            esize = {"map_projection": 1620, "file_descriptors": 360}.get(name)
+            lf = [l for l in getattr(it, "all_leaves", []) if tuple(l.path) == (name,) and l.codec.startswith("array[")]
+            if esize is None or not lf:
+                continue
+            total = total + as_int_term(lf[0].chain[0][1]) * esize
+            known += 1
+        elif name in VARIABLE:
+            L = _leaf_value(it, name, "preamble", "record_length")
+            if L is None:
+                continue
+            total = total + as_int_term(L)
+            known += 1
+        elif name in CEOS_LENGTHS.get(unit, {}):
+            total = total + CEOS_LENGTHS[unit][name]
+            known += 1
+    sub.decided(f"{pid}/all-records-have-a-declared-length", known == len(spans) and known > 0, function=fn,
+                detail={"records": [s[0][0] for s in spans], "with_declared_length": known})
+    sub.prove(f"{pid}/returns-only-if-the-file-holds-every-declared-byte", base + admissible(it, unit), size >= total, function=fn,
+              kind="post", detail={"declared_total": str(z3.simplify(total))[:200]})
